@@ -39,6 +39,10 @@ checks = {
    'Model-based monitor over all six rule modules: generated sequences of LoadRules / LoadRulesOfResource (LoadRuleOfResource for outlier) / ClearRules / ClearRulesOfResource / identical reload with freshly allocated equal objects, lists mixing binding valid rules (unique id + probe signature), inert valid rules, every field-wise invalidity class of the module and nil elements. After every step the getters (ids, order within a resource) and probe traffic (admissions until the first block and the triggered rule: frozen-window requests for flow, nested entries for isolation / hotspot / system, error completions for breakers, failing callee completions until FilterNodes reports the node for outlier) on the touched and on another resource are compared with the model = valid rules of the latest load per resource.',
    'Validity is the monitor\'s own transcription of each module\'s documented check; probes observe the binding (minimum-K) rule and the getters the whole list; generated rules are semantically unique (the managers re-use the controller and the old rule object of a rule equal in every field but ID, which is not treated as a violation); unsupported-enum rules accepted by the module\'s own check are not generated.',
    'runtime model-based monitor: getters + signature probe traffic vs latest-valid-load model', 'DESIGN.md §3 C13'),
+ 'C17': ('fault_enumeration',
+   'History + fault-enumeration monitor on the real writer / searcher in a scratch directory under the virtual clock: generated per-second batch sequences (repeated, skipped and stale seconds, resource names with spaces / slashes / non-ASCII, file size limits 200 B-4 KB forcing many rolls, 1-5 retained files, start times shortly before midnight); after every write the file-count bound; the retained files, parsed by the monitor itself, must be a byte-identical suffix of the accepted writes; 6-15 time/resource and line-limited queries on ONE long-lived searcher and on fresh searchers vs. the expectation computed from the retained items; then the last data file and its index are cut at byte k on a copy (quick: every offset of the last 3 lines / 3 index entries plus sampled offsets; thorough: every offset of both files) and a fresh searcher must not fail or panic, must return only items that were written (not more often than written) and every item whose line and index entry lie wholly before the cut.',
+   'Trusts the monitor\'s 10-line parser of the retained files and its own accepted-writes log; a line-limited query may return any limit-honouring prefix of the reference result (the library stops at a file boundary once the limit is reached); crash points are enumerated for the last file only.',
+   'runtime history monitor (accepted-writes log vs searcher) + crash-point enumeration by file truncation', 'DESIGN.md §3 C17'),
  'C18': ('exploration',
    'Model-based monitor of the five JSON property handlers: generated delivery sequences (arrays of generated valid / field-wise invalid rules written by a hand-written encoder of the documented wire format incl. hot-param specific items of all four kinds, arrays with null elements, identical redelivery, truncated JSON at a random byte, wrongly typed elements, garbage, empty payload, JSON null, bad-then-good); after each delivery Handle\'s return (nil iff decodable), absence of panics and the module\'s rules in force (every field, canonical form = wire round trip) are compared with the valid rules described by the last decodable payload. Second engine: the refreshable file datasource on a scratch file under write / truncate-then-write / in-place corruption / rename-away / remove, convergence polled and only counted when a control fsnotify watcher owned by the monitor saw the event.',
    'Trusts the hand-written wire encoder and the monitor\'s transcription of rule validity; truncations are sampled, not every prefix; the file engine uses real inotify and a bounded wall-clock poll (inconclusive, not violated, when the control watcher saw nothing).',
